@@ -2063,6 +2063,9 @@ func (s *swamp) GetBeacon(beaconType BeaconType, order BeaconOrder) beacon.Beaco
 		return s.updateTimeBeaconDESC
 	case BeaconTypeValueInt64, BeaconTypeValueFloat64, BeaconTypeValueString:
 		s.buildBeacon(s.valueBeaconASC, s.valueBeaconDESC, beaconType)
+		if !s.valueBeaconASC.IsInitialized() || !s.valueBeaconDESC.IsInitialized() {
+			return nil // the value index could not be built (treasures of another value type)
+		}
 		if order == IndexOrderAsc {
 			return s.valueBeaconASC
 		}
@@ -3112,6 +3115,9 @@ func (s *swamp) findInExpirationTimeBeacon(order BeaconOrder, from int32, limit 
 // Build the two indexes if they are not exists or the indexes are empty
 func (s *swamp) findInValueBeacon(order BeaconOrder, bc BeaconType, from int32, limit int32) ([]treasure.Treasure, error) {
 	s.buildBeacon(s.valueBeaconASC, s.valueBeaconDESC, bc)
+	if !s.valueBeaconASC.IsInitialized() || !s.valueBeaconDESC.IsInitialized() {
+		return nil, errors.New("the value index cannot be built: the swamp holds treasures of another value type")
+	}
 	switch order {
 	case IndexOrderAsc:
 		return s.valueBeaconASC.GetManyFromOrderPosition(&beacon.OrderPosition{
@@ -3225,7 +3231,8 @@ func (s *swamp) buildBeacon(beaconASC beacon.Beacon, beaconDESC beacon.Beacon, b
 			err = beaconASC.SortByKeyAsc()
 		}
 		if err != nil {
-			beaconASC.SetInitialized(false)
+			// drop the pushed treasures too, otherwise the next build pushes them a second time
+			beaconASC.Reset()
 			slog.Error("failed to sort keyBeaconASC", "error", err)
 		}
 	}
@@ -3269,7 +3276,7 @@ func (s *swamp) buildBeacon(beaconASC beacon.Beacon, beaconDESC beacon.Beacon, b
 			err = beaconDESC.SortByKeyDesc()
 		}
 		if err != nil {
-			beaconDESC.SetInitialized(false)
+			beaconDESC.Reset()
 			slog.Error("failed to sort keyBeaconDESC", "error", err)
 		}
 	}
